@@ -177,7 +177,7 @@ PROPS = {
         "assumptions": ["equal created_at on one address: either version may be retained (model: first arrived)", "for ephemeral events the returned flag is not constrained by the monitor"],
     },
     "C05": {
-        "lean_modules": ["MocProps.C05", "MocProps.C05Inv", "MocProps.C05Reg"], "theorem_files": ["MocProps/C05.lean", "MocProps/C05Inv.lean", "MocProps/C05Reg.lean"],
+        "lean_modules": ["MocProps.C05", "MocProps.C05Inv", "MocProps.C05Sound", "MocProps.C05Reg"], "theorem_files": ["MocProps/C05.lean", "MocProps/C05Inv.lean", "MocProps/C05Sound.lean", "MocProps/C05Reg.lean"],
         "gen_groups": ["Cache"], "harness_prop": "cache", "driver_prop": "cache", "stateful": True,
         "monitors": ["deletion"],
         "n_quick": 60000, "n_thorough": 600000, "thorough_seeds": 3,
@@ -189,7 +189,7 @@ PROPS = {
                       "For EVERY history (C05Inv.lean): in every reachable state no retained event is named - by the key it is stored under or by its id - by a retained deletion request "
                       "of its own author, whichever arrived first (never_visible_with_own_deletion), and the named events cannot come back while the request is retained (deleted_stays_out); "
                       "invariant Inv2 (distinct keys, no retained event blocked by the registry, every reference of a retained request registered) is carried through Add - replace, register, "
-                      "delete referenced, evict - and through delete incl. the registry clean-up when a request leaves (add_inv2, delete_inv2, delete_keeps_registration). The registry AS THE CODE KEEPS IT (a map from (key, author) to the set of ids of the retained requests, `isDeleted` = the entry exists, emptied sets removed) is modelled in MocModel/CacheReg.lean and proved to implement the set of triples the store model uses: isDeleted_refines, regAdd_refines / addKind5_refines, regDel_refines / cleanup_refines (invariant: no empty set is kept); the implementation's registry is compared with the model's triples after every insertion.",
+                      "delete referenced, evict - and through delete incl. the registry clean-up when a request leaves (add_inv2, delete_inv2, delete_keeps_registration). The converse for every history (C05Sound): every registration belongs to a retained request of that author and id naming that key (RegSound, add_rs), so a refused insertion always has a retained request behind it and the block lifts when the last one leaves (block_has_retained_request, no_request_no_block, registry_exact); the implementation's own registry is judged by the same criterion after every insertion (monitor class registry-orphan). The registry AS THE CODE KEEPS IT (a map from (key, author) to the set of ids of the retained requests, `isDeleted` = the entry exists, emptied sets removed) is modelled in MocModel/CacheReg.lean and proved to implement the set of triples the store model uses: isDeleted_refines, regAdd_refines / addKind5_refines, regDel_refines / cleanup_refines (invariant: no empty set is kept); the implementation's registry is compared with the model's triples after every insertion.",
         "level_note": "Trusted: Lean kernel + standard axioms; go2lean; harness/driver. Address references to replaceable events (kind:pubkey vs kind:pubkey:) are left open by the "
                       "statement and accepted either way by the monitor.",
         "assumptions": ["key strings of different slots differ (hex ids/pubkeys)"],
@@ -283,14 +283,19 @@ PROPS = {
                         "SendTimeout > 0"],
     },
     "C14": {
-        "lean_modules": ["MocProps.C14"], "theorem_files": ["MocProps/C14.lean"],
+        "lean_modules": ["MocProps.C14", "MocProps.C14Tx"], "theorem_files": ["MocProps/C14.lean", "MocProps/C14Tx.lean"],
         "gen_groups": ["Sqlite", "Cache", "Matcher"], "harness_prop": "sqlitefault", "driver_prop": "sqlite", "stateful": True,
         "monitors": ["answer"],
         "n_quick": 3000, "n_thorough": 12000, "thorough_seeds": 3,
         "rule": SQLITE_RULE,
         "level_text": "Proved on the table model: inserting a batch again - after a success or as the retry after a failure - leaves every table exactly as one successful insertion does, for every "
                       "database state and batch with injective ids (insertBatch_idempotent, retries_equal_single_success: every statement of the second run finds its event settled, by an invariant "
-                      "carried through the whole batch). Partial: atomicity and persistence are properties of SQLite transactions and files; in the model a failed batch and a reopen are the identity by definition "
+                      "carried through the whole batch). The transaction is also modelled at the level of single driver calls (MocModel/SqlTx.lean: BeginTx, five Prepares, per event the upsert and - when it "
+                      "affected a row - payload, tag and tombstone statements, Commit; deferred Rollback on any error) and proved for EVERY fault plan: the statements issued for an event build exactly the "
+                      "per-event model's tables (execEvent_work, execBatch_work), insertEvents either reports success with the whole batch stored or reports an error with the database unchanged "
+                      "(tx_all_or_nothing), success is reported only if none of the issued calls failed (tx_ok_no_fault_reached), and the same through bulkInsertWithRetry (retry_all_or_nothing, "
+                      "retry_then_success); the implementation is compared with this model call by call (reported verdict and the number of driver calls the fault-injecting driver saw). "
+                      "Partial: that Rollback / a failed Commit restore the state at BeginTx, and persistence, are properties of SQLite transactions and files; in the model a reopen is the identity by definition "
                       "(failed_batch_is_identity, retry_after_failure) and the fault-injecting correspondence checks that the real database behaves so: after a batch that failed at any driver call "
                       "index every query is answered as before, a retried or repeated batch gives the answers of one successful insertion, and answers survive close/reopen (same hash seed), "
                       "including replacement and deletion across the restart.",
